@@ -197,6 +197,22 @@ impl<'tcx> Cx<'tcx> {
         jarr(args.iter().map(|a| self.garg_json(a)))
     }
 
+    /// def paths of all ADTs mentioned in a type
+    fn adts_in_ty(&self, t: Ty<'tcx>) -> Vec<String> {
+        let mut out = Vec::new();
+        for a in t.walk() {
+            if let GenericArgKind::Type(t) = a.kind() {
+                if let ty::Adt(adt, _) = t.kind() {
+                    let s = self.path(adt.did());
+                    if !out.contains(&s) {
+                        out.push(s);
+                    }
+                }
+            }
+        }
+        out
+    }
+
     /// closure def ids mentioned in a type (so that "closure captured by value" is a fact)
     fn closures_in_ty(&self, t: Ty<'tcx>, out: &mut Vec<String>) {
         for a in t.walk() {
@@ -628,6 +644,7 @@ impl<'tcx> Cx<'tcx> {
                     if let ty::Adt(adt, _) = pty.kind() {
                         f.push(("adt", js(&self.path(adt.did()))));
                     }
+                    f.push(("adts", jarr(self.adts_in_ty(pty).iter().map(|s| js(s)))));
                     if let ty::Param(p) = pty.kind() {
                         f.push(("param", js(p.name.as_str())));
                     }
@@ -760,7 +777,11 @@ impl<'tcx> Cx<'tcx> {
         let tcx = self.tcx;
         let mut f = vec![("id", js(&self.id(did)))];
         f.extend(self.span_json(tcx.def_span(did)));
-        f.push(("self_ty", js(&self.ty(tcx.type_of(did).instantiate_identity().skip_norm_wip()))));
+        let sty = tcx.type_of(did).instantiate_identity().skip_norm_wip();
+        f.push(("self_ty", js(&self.ty(sty))));
+        if let ty::Adt(adt, _) = sty.kind() {
+            f.push(("self_adt", js(&self.path(adt.did()))));
+        }
         if let Some(tr) = tcx.impl_opt_trait_ref(did) {
             let tr = tr.instantiate_identity().skip_norm_wip();
             f.push(("trait", js(&self.path(tr.def_id))));
@@ -825,9 +846,11 @@ impl<'tcx> Cx<'tcx> {
         for v in adt.variants() {
             let mut fields = Vec::new();
             for fd in &v.fields {
+                let fty = tcx.type_of(fd.did).instantiate_identity().skip_norm_wip();
                 fields.push(jobj(&[
                     ("name", js(fd.name.as_str())),
-                    ("ty", js(&self.ty(tcx.type_of(fd.did).instantiate_identity().skip_norm_wip()))),
+                    ("ty", js(&self.ty(fty))),
+                    ("adts", jarr(self.adts_in_ty(fty).iter().map(|s| js(s)))),
                     ("pub", jb(fd.vis.is_public())),
                 ]));
             }
